@@ -19,11 +19,47 @@ package types
 //@   ensures len(result) == 32
 
 //@ contract CommitPacket
+//@   pure
 //@   invariant #1 acc: appBytes == payloadsHash(packet.Payloads, rangeindex + 1)
 //@   invariant #1 idx: 0 - 1 <= rangeindex && rangeindex < len(packet.Payloads) || (len(packet.Payloads) == 0 && rangeindex == 0 - 1)
 //@   ensures layout: result == sha256(str(2) + sha256(packet.DestinationClient) + sha256(be64(packet.TimeoutTimestamp)) + sha256(payloadsHash(packet.Payloads, len(packet.Payloads))))
 
 //@ contract CommitAcknowledgement
+//@   pure
 //@   invariant #1 acc: buf == acksHash(acknowledgement.AppAcknowledgements, rangeindex + 1)
 //@   invariant #1 idx: 0 - 1 <= rangeindex && rangeindex < len(acknowledgement.AppAcknowledgements) || (len(acknowledgement.AppAcknowledgements) == 0 && rangeindex == 0 - 1)
 //@   ensures layout: result == sha256(str(2) + acksHash(acknowledgement.AppAcknowledgements, len(acknowledgement.AppAcknowledgements)))
+
+// ---- ghost vocabulary for the client keeper this module depends on (expected_keepers.go)
+
+//@ spec func ProvenMembership(clientID string, h exported.Height, delayT int, delayB int, path iface, value string) bool
+//@ spec func ProvenNonMembership(clientID string, h exported.Height, delayT int, delayB int, path iface) bool
+//@ spec func clientStatusV2(w World, id string) string
+//@ spec func clientLatestHeightV2(w World, id string) clienttypes.Height
+//@ spec func clientTimestampAtV2(w World, id string, h exported.Height) int
+//@ spec func clientTimestampErrV2(w World, id string, h exported.Height) error
+
+//@ contract interface ClientKeeper.VerifyMembership
+//@   ensures err == nil ==> ProvenMembership(clientID, height, delayTimePeriod, delayBlockPeriod, path, value)
+//@   ensures !errIs(err, ErrNoOpMsg)
+
+//@ contract interface ClientKeeper.VerifyNonMembership
+//@   ensures err == nil ==> ProvenNonMembership(clientID, height, delayTimePeriod, delayBlockPeriod, path)
+//@   ensures !errIs(err, ErrNoOpMsg)
+
+//@ contract interface ClientKeeper.GetClientStatus
+//@   ensures result == clientStatusV2(world(ctx), clientID)
+
+//@ contract interface ClientKeeper.GetClientLatestHeight
+//@   ensures result == clientLatestHeightV2(world(ctx), clientID)
+
+//@ contract interface ClientKeeper.GetClientTimestampAtHeight
+//@   ensures result0 == clientTimestampAtV2(world(ctx), clientID, height) && err == clientTimestampErrV2(world(ctx), clientID, height)
+//@   ensures 0 <= result0 && result0 < 18446744073709551616
+//@   ensures !errIs(err, ErrNoOpMsg)
+
+//@ contract BuildMerklePath
+//@   pure
+//@   ensures length: len(result.KeyPath) == len(prefix)
+//@   ensures head: forall i int :: 0 <= i && i < len(prefix) - 1 ==> str(result.KeyPath[i]) == str(prefix[i])
+//@   ensures last: str(result.KeyPath[len(prefix) - 1]) == str(prefix[len(prefix) - 1]) + str(path)
